@@ -359,11 +359,27 @@ register("C10",
 
 
 def _planted_oracle(kind_tokens):
-    """e2e oracle for planted defects: the program must be rejected with the right diagnostic class"""
+    """e2e oracle for planted defects: the program must be rejected with the right diagnostic class — and a program without
+    a planted defect must not be given a diagnostic of that class"""
+    classes = tuple(sorted({c for v in kind_tokens.values() for c in ((v,) if isinstance(v, str) else v)}))
+
     def extra(rep, units, info):
         fails = []
         for ur in units:
             pl = getattr(ur.u, "planted", None)
+            # twin injectors share sets and providers: a defect planted in one may reach the other
+            kin = [o for o in ur.prog.units if o is not ur.u and (getattr(o, "twin_of", None) is ur.u or getattr(ur.u, "twin_of", None) is o)]
+            if not pl and any(getattr(o, "planted", None) for o in kin):
+                continue
+            if not pl and (ur.impl or "").startswith("err") and not getattr(ur, "ambiguous", False):
+                spurious = [t for t in (ur.impl or "").split()[1:] if t.startswith(classes)]
+                if spurious:
+                    from . import e2e_eval as EV
+                    fails.append({"stream": "e2e-wellformed", "request": ur.request, "impl": ur.impl,
+                                  "why": ["a program in which every type has exactly one source and every item contributes is rejected: %s | %s"
+                                          % (" ".join(spurious)[:200], " ".join(ur.wire_errors)[:300])],
+                                  "program": ur.prog.name, "files": EV.G.materialise(ur.prog)})
+                continue
             if not pl or pl[0] not in kind_tokens or (ur.impl or "") == "blocked":
                 continue
             imp = ur.impl or ""
@@ -384,8 +400,8 @@ def _planted(ur):
 # re-register the planner properties with an additional source-level (e2e) part
 for _name, _kinds, _rule in [
         ("C05", {"dup": "multi:", "dupset": "multi:"}, "two sources for one type"),
-        ("C06", {"missing": ("noprov:", "bindmissing:"), "missingtwin": ("noprov:", "bindmissing:")}, "a needed source removed"),
-        ("C08", {"unused": "unused", "twinunused": "unusedprov:", "unusedtwin": "unusedprov:"}, "a superfluous direct item")]:
+        ("C06", {"missing": ("noprov:", "bindmissing:"), "missingtwin": ("noprov:", "bindmissing:"), "missingform": ("noprov:",)}, "a needed source removed"),
+        ("C08", {"unused": "unused", "twinunused": "unusedprov:", "unusedtwin": "unusedprov:", "emptyinline": "unusedset:"}, "a superfluous direct item")]:
     _unit_nt = {"C05": _nt_dups, "C06": _nt_missing, "C08": _nt_unused}[_name]
     register(_name,
              "unit tier: random provider-set DAGs through the real buildProviderMap/verifyAcyclic/solve (see planner streams); "
@@ -592,7 +608,8 @@ register("C19",
          "come from outside (computed declaratively from the abstract program); non-trivial = each program",
          [stream_part("C19", lambda tier: [("gather", "gather", ["-seed", seed(), "-n", 3000 if tier == "quick" else 40000])],
                       nontrivial=lambda case, im: len(im.split()) >= 3),
-          _c19_part])
+          _c19_part,
+          lambda rep, tier: __import__("vlib.c19tier", fromlist=["x"]).run_nested(rep, tier)])
 
 
 def _c01_internal(rep, tier):
